@@ -25,19 +25,30 @@ import (
 )
 
 type leaderMove struct {
-	after int // after this many produce requests have been received by the cluster
-	topic string
-	part  int
+	after  int // after this many produce requests have been received by the cluster
+	topic  string
+	part   int
+	bounce bool // the cluster also drops every connection and refuses the next two dials
+}
+
+// wireConn: a served connection; busy is held while a request is being handled and answered, so that a scripted
+// bounce never cuts an answer the journal already recorded as delivered (a cut at that point is scripted as `lostack`)
+type wireConn struct {
+	net.Conn
+	busy sync.Mutex
+	dead bool // set (under busy) by a bounce: a request read before the cut but not yet handled is dropped unhandled
 }
 
 type wireCluster struct {
-	fc        *fakecluster.Cluster
-	f         *fakeRT
-	mu        sync.Mutex
-	nprod     int
-	moves     []leaderMove
-	conns     []net.Conn
-	misrouted int // produce requests that arrived at a broker which is not the partition's leader
+	fc          *fakecluster.Cluster
+	f           *fakeRT
+	mu          sync.Mutex
+	nprod       int
+	moves       []leaderMove
+	conns       []*wireConn
+	misrouted   int // produce requests that arrived at a broker which is not the partition's leader
+	dialFail    int // the next n dials fail (broker unreachable)
+	dialsFailed int
 }
 
 func newWireCluster(f *fakeRT, nbrokers int, nparts map[string]int, moves []leaderMove) *wireCluster {
@@ -71,11 +82,20 @@ func (w *wireCluster) Dial(ctx context.Context, network, addr string) (net.Conn,
 	if err != nil {
 		return nil, fmt.Errorf("wire cluster: nothing listens on %s", addr)
 	}
-	cli, srv := net.Pipe()
 	w.mu.Lock()
-	w.conns = append(w.conns, srv)
+	if w.dialFail > 0 {
+		w.dialFail--
+		w.dialsFailed++
+		w.mu.Unlock()
+		return nil, &net.OpError{Op: "dial", Net: network, Err: fmt.Errorf("wire cluster: %s unreachable", addr)}
+	}
 	w.mu.Unlock()
-	go w.serve(int32(id), srv)
+	cli, srv := net.Pipe()
+	wcn := &wireConn{Conn: srv}
+	w.mu.Lock()
+	w.conns = append(w.conns, wcn)
+	w.mu.Unlock()
+	go w.serve(int32(id), wcn)
 	return cli, nil
 }
 
@@ -87,13 +107,26 @@ func (w *wireCluster) close() {
 	}
 }
 
-func (w *wireCluster) serve(broker int32, conn net.Conn) {
+func (w *wireCluster) serve(broker int32, conn *wireConn) {
 	defer conn.Close()
 	for {
 		ver, corr, _, msg, err := protocol.ReadRequest(conn)
 		if err != nil {
 			return
 		}
+		if !w.serveOne(broker, conn, ver, corr, msg) {
+			return
+		}
+	}
+}
+
+func (w *wireCluster) serveOne(broker int32, conn *wireConn, ver int16, corr int32, msg protocol.Message) bool {
+	conn.busy.Lock()
+	defer conn.busy.Unlock()
+	if conn.dead {
+		return false
+	}
+	{
 		var res protocol.Message
 		switch m := msg.(type) {
 		case *apiversions.Request:
@@ -107,19 +140,20 @@ func (w *wireCluster) serve(broker int32, conn net.Conn) {
 		case *produce.Request:
 			r, drop := w.produce(broker, m)
 			if drop {
-				return // the connection dies without an answer: a transport error on the client side
+				return false // the connection dies without an answer: a transport error on the client side
 			}
 			res = r
 		default:
-			return
+			return false
 		}
 		if res == nil {
-			continue
+			return true
 		}
 		if err := protocol.WriteResponse(conn, ver, corr, res); err != nil {
-			return
+			return false
 		}
 	}
+	return true
 }
 
 func (w *wireCluster) produce(broker int32, m *produce.Request) (protocol.Message, bool) {
@@ -150,6 +184,21 @@ func (w *wireCluster) produce(broker int32, m *produce.Request) (protocol.Messag
 					}
 				}
 				p.Leader, p.Replicas, p.Isr = next, []int32{next}, []int32{next}
+				if mv.bounce {
+					w.mu.Lock()
+					w.dialFail += 2
+					old := w.conns
+					w.conns = nil
+					w.mu.Unlock()
+					go func() {
+						for _, c := range old {
+							c.busy.Lock() // let an answer in progress go out
+							c.dead = true
+							c.Close()
+							c.busy.Unlock()
+						}
+					}()
+				}
 			}
 		}
 	}
